@@ -1,6 +1,7 @@
 import SwayVerif.Props.C08
 open SwayVerif.C08
 #print axioms liveness_is_solution
+#print axioms liveness_total
 #print axioms liveness_sound
 #print axioms interference_complete
 #print axioms coalesce_keeps_interference
